@@ -138,7 +138,9 @@ StepOf(g, x) ==
               [] tk.k = "LS" -> IF g.S = 0 THEN {cont([g EXCEPT !.S = me])} ELSE {}
               [] tk.k = "WM" -> IF g.M = 0 THEN {cont([g EXCEPT !.M = me])} ELSE {}
               [] tk.k = "LF" -> IF g.F[tk.t] = 0 THEN {cont([g EXCEPT !.F[tk.t] = me])} ELSE {}
-              [] tk.k = "NOTIFY" -> {cont([g EXCEPT !.notified[tk.t] = TRUE])}
+              [] tk.k = "NOTIFY" ->
+                    (* a notification reaches the ticker only if it is waiting right now; otherwise it is lost *)
+                    {cont(IF g.tst[tk.t] # <<>> /\ Head(g.tst[tk.t]).k = "WAIT" THEN [g EXCEPT !.notified[tk.t] = TRUE] ELSE g)}
               [] tk.k = "JOIN" -> IF g.tstate[tk.t] = "done" THEN {cont(g)} ELSE {}
               [] tk.k = "SPAWN" ->
                     IF g.nt < MaxTickers
